@@ -38,6 +38,7 @@ func main() {
 	samples := flag.Int("samples", 5, "number of path samples to keep")
 	verbose := flag.Bool("v", false, "print every path")
 	stopFirst := flag.Bool("stop-on-first", false, "stop at first violation")
+	classes := flag.String("classes", "", "comma separated property ids: check only assertions of these classes")
 	mapOrder := flag.Int("maporder", 0, "map iteration schedule (0 insertion, 1 reversed, 2 rotated)")
 	params := flag.String("params", "", "k=v,k=v harness parameters (verifParam)")
 	replay := flag.String("replay", "", "JSON file with input values: run concretely")
@@ -141,6 +142,7 @@ func main() {
 		Workers: *workers, MaxPaths: *maxPaths, MaxSteps: *maxSteps, SolverTimeout: *timeout,
 		SolverCmd: strings.Fields(*solver), Samples: *samples, Verbose: *verbose,
 		StopOnFirst: *stopFirst, MapOrder: *mapOrder, Params: map[string]string{},
+		Classes: splitNonEmpty(*classes),
 	}
 	opt.KeepOutput = *keepOut
 	if *real != "" {
@@ -232,4 +234,14 @@ func main() {
 		data, _ := json.MarshalIndent(all, "", " ")
 		os.WriteFile(*out, data, 0644)
 	}
+}
+
+func splitNonEmpty(s string) []string {
+	var l []string
+	for _, x := range strings.Split(s, ",") {
+		if x != "" {
+			l = append(l, x)
+		}
+	}
+	return l
 }
